@@ -173,3 +173,28 @@ Definition max_addr (l : layout) : Z :=
   fold_left (fun acc s => acc + (snd (static_of s) - 1) * fst (static_of s)) (all_strides l) 0.
 
 Definition optZ_eqb' := optZ_eqb.
+
+(* ---- create_memref_struct: the memref descriptor that replaces a snax.alloc ------------- *)
+(* where a pointer field comes from: a constant address (static / minimalloc mode) or field k of the
+   {pointer, aligned_pointer} struct loaded from the result of the run-time call snax_alloc_l1(size, alignment) *)
+Inductive psrc := PConst (addr : Z) | PField (k : nat).
+Definition psrc_eqb (a b : psrc) : bool :=
+  match a, b with PConst x, PConst y => x =? y | PField i, PField j => Nat.eqb i j | _, _ => false end.
+Record descr := mkDescr {
+  d_ptr : psrc;                 (* descriptor field 0 *)
+  d_aligned : psrc;             (* descriptor field 1: every later access goes through it *)
+  d_offset : Z;                 (* descriptor field 2 *)
+  d_sizes : list nat;           (* descriptor field 3: which shape operand of the alloc fills entry i *)
+  d_call_align : option Z       (* alignment passed to snax_alloc_l1 (dynamic mode only) *)
+}.
+Definition descr_eqb (a b : descr) : bool :=
+  psrc_eqb (d_ptr a) (d_ptr b) && psrc_eqb (d_aligned a) (d_aligned b) && (d_offset a =? d_offset b)
+  && list_eqb Nat.eqb (d_sizes a) (d_sizes b) && optZ_eqb (d_call_align a) (d_call_align b).
+(* StaticAllocs / MiniMallocate: create_memref_struct(op, pointer) *)
+Definition descr_const (addr : Z) (nshapes : nat) : descr :=
+  mkDescr (PConst addr) (PConst addr) 0 (seq 0 nshapes) None.
+(* DynamicAllocs: create_memref_struct(op, pointer_op.res, aligned_pointer_op.res) *)
+Definition descr_dynamic (alignment : Z) (nshapes : nat) : descr :=
+  mkDescr (PField 0) (PField 1) 0 (seq 0 nshapes) (Some alignment).
+(* MiniMallocate: the solver's offsets are relative to the start of the buffer's own memory space *)
+Definition pointer_of (mem_start off : Z) : Z := off + mem_start.
